@@ -718,6 +718,7 @@ static void restore_jmpbuf_rstack(struct mcount_thread_data *mtdp, unsigned long
 /* it's crazy to call vfork() concurrently */
 int mcount_vfork_parent;
 static struct mcount_thread_data *vfork_mtdp;
+static bool vfork_child_ran;
 static int vfork_rstack_idx;
 static int vfork_record_idx;
 static struct mcount_ret_stack vfork_rstack;
@@ -729,6 +730,7 @@ static void prepare_vfork(struct mcount_thread_data *mtdp, struct mcount_ret_sta
 	/* save original parent info */
 	mcount_vfork_parent = getpid();
 	vfork_mtdp = mtdp;
+	vfork_child_ran = false;
 	vfork_rstack_idx = mtdp->idx;
 	vfork_record_idx = mtdp->record_idx;
 	/* the child works on the filter state too (and leaves vfork() itself once more) */
@@ -752,6 +754,9 @@ static void setup_vfork(struct mcount_thread_data *mtdp)
 
 	/* update tid cache */
 	mtdp->tid = tmsg.tid;
+
+	/* seen by the parent: the child shares its memory */
+	vfork_child_ran = true;
 
 	mcount_memcpy4(&vfork_shmem, &mtdp->shmem, sizeof(vfork_shmem));
 
@@ -780,6 +785,14 @@ void mcount_restore_vfork(struct mcount_thread_data *mtdp)
 	if (mtdp != vfork_mtdp || getpid() != mcount_vfork_parent)
 		return;
 
+	/*
+	 * a signal handler can also run between the entry hook of vfork()
+	 * and the system call: nothing to put back yet, and the saved
+	 * state must stay for the real return.
+	 */
+	if (!vfork_child_ran)
+		return;
+
 	/* flush tid cache */
 	mtdp->tid = 0;
 
@@ -790,6 +803,7 @@ void mcount_restore_vfork(struct mcount_thread_data *mtdp)
 
 	mcount_vfork_parent = 0;
 	vfork_mtdp = NULL;
+	vfork_child_ran = false;
 
 	mcount_memcpy4(&mtdp->shmem, &vfork_shmem, sizeof(vfork_shmem));
 
@@ -800,7 +814,7 @@ void mcount_restore_vfork(struct mcount_thread_data *mtdp)
 static struct mcount_ret_stack *restore_vfork(struct mcount_thread_data *mtdp,
 					      struct mcount_ret_stack *rstack)
 {
-	if (mtdp == vfork_mtdp && getpid() == mcount_vfork_parent) {
+	if (mtdp == vfork_mtdp && getpid() == mcount_vfork_parent && vfork_child_ran) {
 		mcount_restore_vfork(mtdp);
 		rstack = &mtdp->rstack[mtdp->idx - 1];
 	}
